@@ -54,3 +54,21 @@ def make_bank(bname, image="index", last=None, holes=(), unlock=0x55, lock_byte=
             live.append((first, r[4]))
     b = MemBank(number, cells, writable, lockable, has_lock, has_latch, unlock, live)
     return b
+
+
+_SUB = {}
+
+
+def make_addr(fam, sa, aform=None):
+    """The short address of the unit in one of the spellings an application may use: the library's own address object
+    (default), a plain integer (gear only - the library documents it as 16-bit DALI), or an instance of an application
+    subclass of the address class (an address object that carries, say, a label)."""
+    from dali.address import GearShort, DeviceShort
+    base = GearShort if fam == "gear" else DeviceShort
+    if aform == "int" and fam == "gear":
+        return sa
+    if aform == "subclass":
+        if base not in _SUB:
+            _SUB[base] = type("Labelled" + base.__name__, (base,), {"label": "luminaire"})
+        return _SUB[base](sa)
+    return base(sa)
